@@ -20,7 +20,7 @@ MCInit ==
         /\ \A k \in TKeys : table[k] # k
 
 UT == UNCHANGED <<table, embed, thalgs>>
-AFromPrivate == FromPrivate /\ UT
+AFromPrivate == (FromPrivate \/ FromGenerated) /\ UT
 AFromRaw == (FromRaw \/ FromRawH) /\ UT
 AFromSpki == (FromSpki \/ FromSpkiOtherScheme) /\ UT
 AFromPem == FromPem /\ UT
